@@ -120,7 +120,7 @@ var props = map[string]PropMeta{
 	},
 	"C09": {
 		Level: "exploration",
-		Rule: "one run = role x stored SHIP ID (none / equal / other / near misses / quotes and braces / long) x presented id (11 variants: equal, other, empty, prefix, trailing blank, quotes, missing, null, number, object, other member only) x order of the access-methods exchange (normal, reply first, reply twice, reply before the access phase, request+reply in one frame, no request) x trust x low-rate deviant frames and clock advances x seeded schedule; " +
+		Rule: "one run = role x stored SHIP ID (none / equal / other / near misses / quotes and braces / long) x presented id (11 variants: equal, other, empty, prefix, trailing blank, quotes, missing, null, number, object, other member only) x order of the access-methods exchange (normal, reply first, reply twice, reply before the access phase, request+reply in one frame, no request) x trust x low-rate deviant frames and clock advances x seeded schedule; in 4% of the runs (50x the cost) two real hubs instead: hub A has stored {nothing, the right id, another id, near misses} for B, the connection is made by A, by B or by both (A in client or server role), oracle over public callbacks only; " +
 			"non-trivial = an access-methods reply was evaluated in the access-methods state; distinct = distinct (stored, presented, order, role, outcome, input set) tuples",
 		Real: ship1Real, Stub: ship1Stub,
 		QuickS: 20, ThoroughS: 360, QuickWorkers: 6,
